@@ -26,6 +26,7 @@ class TimerRun:
         self.dropped = []        # [conn, at]
         self.stopping = False
         self.conn_no = 0
+        self.gen_conn = {}       # FakeL2 generation -> connection number
         self.schedule = []
         self.errors = []
         m = self.L.m
@@ -78,6 +79,7 @@ class TimerRun:
                         if not w.mailbox_pump():
                             break
                     w.connect()
+                self.gen_conn[self.L.conn.gen] = self.conn_no
             elif a == "ConnLost":
                 w.cut()
                 w.observe_loss("L")
@@ -97,7 +99,8 @@ class TimerRun:
         new = [n for n in w.notes if n[0] == "disconnect" and n[1] == "L"][ndis:]
         for n in new:
             if a != "Stop":
-                self.dropped.append({"conn": self.conn_no, "at": int(reactor.seconds())})
+                # which connection disconnect() was really called on
+                self.dropped.append({"conn": self.gen_conn.get(n[2], 0), "at": int(reactor.seconds())})
 
     def projection(self):
         t = self.L.m._timer
@@ -182,6 +185,30 @@ def run(prop, tier):
                     ndrift += 1
                     if len(cov["drift"]) < 6:
                         cov["drift"].append(dict(drift, tid=tid, config=name))
+        # coverage goals: shortest behaviours reaching situations random simulation seldom does
+        goals = {
+            "second_conn_dropped": "\\E i \\in 1..Len(dropped) : dropped[i].conn = 2",
+            "second_conn_answered_then_dropped": "\\E i \\in 1..Len(dropped) : dropped[i].conn = 2 /\\ Answered(2) # {}",
+            "first_conn_answered_then_dropped": "\\E i \\in 1..Len(dropped) : dropped[i].conn = 1 /\\ Answered(1) # {}",
+            "third_conn_dropped": "\\E i \\in 1..Len(dropped) : dropped[i].conn = 3",
+            "two_drops": "Len(dropped) >= 2",
+            "second_conn_three_answers": "conn = 2 /\\ Cardinality(Answered(2)) >= 3",
+            "stop_on_second_conn_armed": "stopped /\\ conn = 2 /\\ Len(pings) >= 3",
+            "lost_second_then_third_monitored": "conn = 3 /\\ timer > 0 /\\ Cardinality(Answered(3)) >= 1",
+        }
+        for name, consts in (("I2", dict(I=2, Horizon=16, MaxConns=3)), ("I3", dict(I=3, Horizon=20, MaxConns=3))):
+            wit, unreached = common.witnesses(wd, "DilationTimer", consts, goals, "MC_C16_goal_" + name)
+            cov.setdefault("witness_goals", {})[name] = {"reached": [g for g, _ in wit], "unreached": unreached}
+            for g, tr in wit:
+                tid += 1
+                run_, rec, drift = replay_behaviour(tid, tr, consts["I"])
+                rec["origin"], rec["config"] = "tlc-witness:" + g, name
+                records.append(rec)
+                meta[tid] = {"schedule": run_.schedule, "I": consts["I"]}
+                if drift:
+                    ndrift += 1
+                    if len(cov["drift"]) < 6:
+                        cov["drift"].append(dict(drift, tid=tid, config=name, goal=g))
         path = wd.file("obs.ndjson")
         with open(path, "w") as f:
             for rec in records:
